@@ -2,6 +2,7 @@ package legs
 
 import (
 	"fmt"
+	"strings"
 
 	"rvharness/internal/core"
 
@@ -101,6 +102,117 @@ func c03Check(c *core.Ctx, cases []engCase) []core.Outcome {
 	return outs
 }
 
+// Leg Sc: the scan-loop model (Model/Scan.lean) on the engine's own tables. For one (pattern, input,
+// start offset) the single-position attempt, the candidate finder's answer and the bump-along position
+// are tabulated for every position through the verif hooks; the Lean model runs `scan` and `naive` on
+// the tables and evaluates the hypotheses of `acceleration_transparent`; Go's real find must equal
+// the model's scan, and every hypothesis must hold.
+func c03ScanCheck(c *core.Ctx, cases []engCase) []core.Outcome {
+	outs := make([]core.Outcome, len(cases))
+	cache := newEngCache()
+	lines := make([]string, len(cases))
+	goAns := make([]string, len(cases))
+	for i := range cases {
+		cs := &cases[i]
+		o := &outs[i]
+		o.Key = fmt.Sprintf("%d|%v|%s|%s|%d", cs.Opts, cs.CodeGen, cs.Pattern, cs.str(), cs.Start)
+		cp := cache.get(cs)
+		if cp.err != nil {
+			o.Buckets = append(o.Buckets, "compile-error")
+			continue
+		}
+		re := cp.re
+		text := cs.Text
+		n := len(text)
+		code := regexp2.VerifCode(re)
+		minLen := 0
+		if code.FindOptimizations != nil {
+			minLen = code.FindOptimizations.MinRequiredLength
+		}
+		var row []string
+		bad := false
+		for p := 0; p <= n; p++ {
+			m, after, err := regexp2.VerifAttemptAtEx(re, text, p, cs.Start, false)
+			if err != nil {
+				bad = true
+				break
+			}
+			found, q := regexp2.VerifFindFirstChar(re, text, p, cs.Start)
+			att := "x"
+			if m != nil {
+				att = fmt.Sprintf("(%d %d)", m.RuneIndex, m.RuneLength)
+			}
+			if q < 0 || q > n || after < 0 || after > n {
+				o.Fail = &core.Failure{Kind: "impl-violation", Key: "C03:finder-out-of-range:" + findModeName(re),
+					Summary:  fmt.Sprintf("candidate finder / bump-along leaves the input: pattern %q opts %d input %q pos %d -> q=%d after=%d", cs.Pattern, cs.Opts, cs.str(), p, q, after),
+					Expected: "0 <= q, after <= len", Got: fmt.Sprint(q, after)}
+				bad = true
+				break
+			}
+			row = append(row, fmt.Sprintf("(%s %s %d %d)", att, core.SBool(found), q, after))
+		}
+		if bad {
+			o.Buckets = append(o.Buckets, "skipped")
+			continue
+		}
+		m, err := re.FindRunesMatchStartingAt(text, cs.Start)
+		if err != nil {
+			continue
+		}
+		goAns[i] = "x"
+		if m != nil {
+			goAns[i] = fmt.Sprintf("(%d %d)", m.RuneIndex, m.RuneLength)
+		}
+		o.Nontrivial = n > 0
+		o.Buckets = append(o.Buckets, findModeName(re))
+		lines[i] = fmt.Sprintf("(c03 (n %d) (rtl %s) (minlen %d) (start %d) (prevlen -1) (row %s))", n, core.SBool(cs.rtl()), minLen, cs.Start, strings.Join(row, " "))
+	}
+	var idx []int
+	var send []string
+	for i := range cases {
+		if lines[i] != "" {
+			idx = append(idx, i)
+			send = append(send, lines[i])
+		}
+	}
+	res, err := c.RunDriver(send)
+	if err != nil {
+		for i := range outs {
+			if outs[i].Fail == nil {
+				outs[i].Fail = core.DriverFailure(err)
+				break
+			}
+		}
+		return outs
+	}
+	for k, i := range idx {
+		cs := &cases[i]
+		// (ok <scan> <naive> (hyp a b c d))
+		want := fmt.Sprintf("(ok %s %s (hyp 1 1 1 1))", goAns[i], goAns[i])
+		if res[k] == want {
+			continue
+		}
+		kind, key := "correspondence-break", "model:scan"
+		var scan, naive, hyp string
+		if f := strings.Fields(strings.NewReplacer("(", " ( ", ")", " ) ").Replace(res[k])); len(f) > 0 {
+			_ = f
+		}
+		if strings.HasSuffix(res[k], "(hyp 1 1 1 1))") {
+			// hypotheses hold, but the model's scan or naive differs from Go's find
+			key = "model:scan-differs"
+		} else {
+			// a hypothesis of the transparency theorem is false on the engine's own tables: the finder,
+			// the bump-along update or the minimum length would lose a match from some start position
+			kind, key = "impl-violation", "C03:hypothesis-false:"+findModeName(cache.get(cs).re)
+		}
+		_, _, _ = scan, naive, hyp
+		outs[i].Fail = &core.Failure{Kind: kind, Key: key,
+			Summary:  fmt.Sprintf("scan-loop model on the engine's tables: pattern %q opts %d codegen=%v input %q start %d (answer = (ok scan naive (hyp shape finder after minlen)))", cs.Pattern, cs.Opts, cs.CodeGen, cs.str(), cs.Start),
+			Expected: want, Got: res[k]}
+	}
+	return outs
+}
+
 func init() {
 	core.Register("C03", func(c *core.Ctx) {
 		g := &engGen{allowRTL: true, perPat: 8, maxLen: 12, rawInput: true, biasFind: true}
@@ -108,6 +220,12 @@ func init() {
 			Name: "N", Kind: "oracle(naive-scan)",
 			Rule: "patterns: 70% random full-syntax ASTs (half of them prefixed with the shapes the search modes recognise: literal / alternation-of-literals prefix, set at a fixed offset, literal after a leading loop, leading and trailing anchors, fixed length, leading loops, leading lookahead), 30% literals harvested from the repository's tests and corpora that compile; options random incl. RightToLeft/ECMAScript/RE2, code-gen analysis on 1/3, bitmap off 1/4; 8 inputs per pattern (pattern-directed with near-miss mutations, ≤12 runes, 1/4 with invalid UTF-8 bytes), start offsets; find / find at every offset / FindNextMatch chain / FindStringMatch / MatchString / MatchRunes compared (span + all captures) with the verif hook that attempts the program at every position in scan order with no candidate finder, prefix filter, length cut-off or bump-along. non-trivial = non-empty input; histogram lists the find modes hit",
 			N: c.N(8000, 400000), Gen: g.next, Check: c03Check, Batch: 500,
+		})
+		g2 := &engGen{allowRTL: true, perPat: 6, maxLen: 10, biasFind: true}
+		core.RunLeg(c, core.Leg[engCase]{
+			Name: "Sc", Kind: "correspondence(scan model)",
+			Rule: "patterns/inputs as leg N (inputs ≤ 10 runes); per case the verif hooks tabulate, for every position, the single-position attempt, the candidate finder's answer and where a failed execution leaves the scan position; the Lean model (Model/Scan.lean) runs scan and naive on the tables and evaluates AttemptShape, FinderSound, AfterSound, MinLenSound (the hypotheses of acceleration_transparent); Go's find must equal the model's scan and naive, and all four hypotheses must hold on the engine's own tables",
+			N: c.N(3000, 150000), Gen: g2.next, Check: c03ScanCheck, Batch: 500,
 		})
 	})
 }
